@@ -563,7 +563,9 @@ def run(ctx):
                 if not ob.get("ingest"):
                     ctx.broken("generator", "object could not be built: %s" % oo["err"], {"scenario": sc})
         for note in o["op_notes"]:
-            if note and note != "noobj":
+            if note == "expire_missing":      # the key was already gone: expiring it again is a no-op, in the model too
+                ctx.cov["histogram"]["history/expire-of-untracked-key"] = ctx.cov["histogram"].get("history/expire-of-untracked-key", 0) + 1
+            elif note and note != "noobj":
                 ctx.broken("generator", "registry operation did not apply: %s" % note, {"scenario": sc})
         defs.append("Definition ops_%d : list rop := %s." % (si, S.ops_term()))
         defs.append("Definition tbl_%d : list pfx := %s." % (si, g_table(o["table"])))
